@@ -649,10 +649,15 @@ func init() {
 				{Name: "mutation-base-pairs-doc", Check: "C16", Kind: "mutreq", Cases: true, Params: map[string]interface{}{"type": "doc", "pairs": "base"}, Shards: 16},
 				{Name: "mutation-base-pairs-map", Check: "C16", Kind: "mutreq", Cases: true, Params: map[string]interface{}{"type": "map", "pairs": "base"}, Shards: 16},
 				schedRun("caller-gives-up-then-next-requests-b1", 1, giveUpScenario(), 0),
+				// a real client holds two datatypes and enters them in every way; the server refuses some of the entries
+				// (create of an existing key, subscribe to a missing one): the refusal is reported through the error handler,
+				// the other datatype of the same Sync is served, the client goes on
+				e2run("client-two-datatypes-some-entries-refused-d4", e2p{Clients: 2, Type: "counter", Keys: []string{"k1", "k2"}, Modes: []string{"create", "subscribe"}, Oracles: []string{"entry", "converge", "log"}, Alpha: "one", Tolerant: true}, 4, 0),
 				{Name: "client-patch-collection-messages", Check: "C16", Kind: "mutadmin", Cases: true, Params: map[string]interface{}{}, Shards: 16}}
 		} else {
 			p.BudgetS = 3300
 			p.Runs = []Run{
+				e2run("client-two-datatypes-some-entries-refused-d6", e2p{Clients: 2, Type: "counter", Keys: []string{"k1", "k2"}, Modes: []string{"create", "subscribe", "soc"}, Oracles: []string{"entry", "converge", "log"}, Alpha: "one", Tolerant: true}, 6, 300000),
 				{Name: "mutation-all-pairs-counter", Check: "C16", Kind: "mutreq", Cases: true, Params: map[string]interface{}{"type": "counter", "pairs": "all"}, Shards: 16},
 				{Name: "mutation-all-pairs-list", Check: "C16", Kind: "mutreq", Cases: true, Params: map[string]interface{}{"type": "list", "pairs": "all"}, Shards: 16},
 				{Name: "mutation-all-pairs-doc", Check: "C16", Kind: "mutreq", Cases: true, Params: map[string]interface{}{"type": "doc", "pairs": "all"}, Shards: 16},
